@@ -1124,6 +1124,33 @@ def _range_round(ctx: Ctx, batch: Batch, sk, scenario, seed, rng, force, script)
                                                                            f"scores {yes}", rp)
             add_rcheck(ctx, batch, pk, att.publicdata, a, b, s, t, x, y, u, v, yes == 1.0, "range check (honest)")
             if pv0.m2 >= 0:
+                # challenges on the boundary of what the verifier's generator can produce (the smallest s, t the
+                # verifier draws must be the smallest the prover answers honestly)
+                L = ralg.LARGE_INTEGER
+                bkind = ["s=min", "t=min", "both=min", "s=min+1", "t=min+1"][
+                    ctx.counts.get("range:boundary-challenge", 0) % 5]
+                ctx.count("range:boundary-challenge")
+                big = rng.getrandbits(30) + 2 * L
+                script.extend({"s=min": [L, big], "t=min": [big, L], "both=min": [L, L], "s=min+1": [L + 1, big],
+                               "t=min+1": [big, L + 1]}[bkind])
+                chb = alg.create_challenges(pk, None)[0]
+                del script[:]
+                sb, tb, _ = unpack_pair(chb)
+                ctx.count(f"range:boundary-challenge:{bkind}:{'drawn' if min(sb, tb) <= L + 1 else 'redrawn'}")
+                yesb, _ = verdict(att, chb, alg.create_challenge_response(sk, att, chb))
+                batch.add(f"guard {L} {sb} {tb}", f"true true {'true' if yesb == 1.0 else 'false'}",
+                          tag="challenge threshold (boundary)")
+                below = pack_pair(L - 1, big) if bkind.startswith("s") else pack_pair(big, L - 1)
+                yesl, _ = verdict(att, below, alg.create_challenge_response(sk, att, below))
+                sl, tl, _ = unpack_pair(below)
+                batch.add(f"guard {L} {sl} {tl}", f"{str(sl >= L).lower()} {str(tl >= L).lower()} "
+                                                  f"{'true' if yesl == 1.0 else 'false'}",
+                          tag="challenge threshold (below)")
+                if yesb != 1.0:
+                    ctx.oracle_fail("create_challenge_response:boundary-challenge",
+                                    f"the verifier drew the challenge (s, t) = ({sb}, {tb}) (smallest value it can draw: "
+                                    f"{L}); the honest prover's answer for {value} in [{a},{b}] is rejected",
+                                    dict(rp, s=sb, t=tb))
                 # aggregates with several answers: one failed check spoils the verdict, no answer is no evidence
                 ch_b, s_b, t_b = challenge_st(small_first=True)
                 xb, yb, remb = unpack_pair(alg.create_challenge_response(sk, att, ch_b))
@@ -1733,6 +1760,208 @@ async def _community_range_round(ctx: Ctx, duplicate: bool, seed: int):
         internet.clear()
 
 
+SESSION_SCHEMAS = {      # exact formats at the smallest key size, next to the shipped defaults, on ONE node
+    "v_sha256_4": {"algorithm": "bonehexact", "key_size": 32, "hash": "sha256_4"},
+    "v_sha256": {"algorithm": "bonehexact", "key_size": 32, "hash": "sha256"},
+    "v_sha512": {"algorithm": "bonehexact", "key_size": 32, "hash": "sha512"},
+}
+SESSION_HASH = {"v_sha256_4": "sha256_4", "v_sha256": "sha256", "v_sha512": "sha512", "id_metadata": "sha256_4"}
+
+
+def issuance_session(ctx: Ctx, batch: Batch, seed=None):
+    """a long-lived pair of nodes: the attestee requests several attestations (different formats, fresh keys) that are
+    outstanding at the same time and answered out of order with interleaved/duplicated chunks; afterwards the same two
+    nodes verify every attribute, one format after the other"""
+    import asyncio
+    import logging
+    seed = ctx.rng.getrandbits(64) if seed is None else seed
+    logging.disable(logging.CRITICAL)
+    try:
+        asyncio.run(_issuance_session(ctx, batch, seed))
+    finally:
+        logging.disable(logging.NOTSET)
+
+
+async def _issuance_session(ctx: Ctx, batch: Batch, seed: int):  # noqa: C901, PLR0912, PLR0915
+    import asyncio
+    from ipv8.attestation.wallet.community import AttestationCommunity, AttestationSettings
+    from ipv8.attestation.wallet.payload import AttestationChunkPayload, RequestAttestationPayload
+    from ipv8.peer import Peer
+    from ipv8.test.mocking.endpoint import internet
+    from ipv8.test.mocking.ipv8 import MockIPv8
+    rng = _random.Random(seed)
+    nodes = [MockIPv8("curve25519", AttestationCommunity, settings=AttestationSettings(working_directory=":memory:"))
+             for _ in range(2)]
+    attester, attestee = nodes[0].overlay, nodes[1].overlay
+    for ov in (attester, attestee):
+        for name, params in SESSION_SCHEMAS.items():
+            ov.schema_manager.register_schema(name, params["algorithm"], dict(params))
+    addr = [n.endpoint.wan_address for n in nodes]
+    plen = len(attester._prefix)  # noqa: SLF001
+    inflight = []
+    for i, nd in enumerate(nodes):
+        nd.endpoint.send = (lambda src: lambda address, packet, *a, **kw:
+                            inflight.append((src, addr.index(address), packet)) if address in addr else None)(i)
+
+    chunk_events = []
+
+    async def settle():
+        for _ in range(6):
+            await asyncio.sleep(0)
+
+    async def pump(pick="fifo", dup=0.0, limit=20000):
+        steps = 0
+        while inflight:
+            steps += 1
+            if steps > limit:
+                raise _Diverged
+            it = inflight.pop(0 if pick == "fifo" else rng.randrange(len(inflight)))
+            for _ in range(2 if dup and rng.random() < dup else 1):
+                if it[1] == 1 and it[2][plen] == 2:
+                    _, dist, pl = attestee._ez_unpack_auth(AttestationChunkPayload, it[2])  # noqa: SLF001
+                    chunk_events.append((dist.global_time, pl.attestation_hash, pl.sequence_number))
+                nodes[it[1]].endpoint.notify_listeners((addr[it[0]], it[2]))
+                await settle()
+
+    plan = [("reversed", "interleaved"), ("reversed", "fifo"), ("random", "interleaved+dup"), ("in-order", "interleaved")]
+    order_kind, chunk_net = plan[ctx.counts.get("session:requests-sessions", 0) % len(plan)]
+    ctx.count("session:requests-sessions")
+    nreq = rng.choice([2, 3, 3])
+    fmts = rng.sample(["v_sha256_4", "v_sha256", "v_sha512", "id_metadata"], nreq)   # distinct formats, one algorithm
+    if nreq == 3 and rng.random() < 0.5:
+        fmts[-1] = fmts[0]                     # two outstanding requests of the same format as well
+    rp = {"kind": "session", "seed": seed, "formats": fmts, "answer_order": order_kind, "chunks": chunk_net}
+    ctx.count(f"session:answer-order:{order_kind}")
+    ctx.count(f"session:chunks:{chunk_net}")
+    try:
+        reqs = []
+        for i, fmt in enumerate(fmts):
+            alg = attestee.get_id_algorithm(fmt)
+            sk = alg.generate_secret_key()
+            value = value_of_class(rng, rng.choice(VALUE_CLASSES))
+            reqs.append({"name": f"attr{i}", "fmt": fmt, "sk": sk, "value": value})
+            ctx.count(f"session:format:{fmt}")
+        rp["keys"] = [r["sk"].serialize().hex() for r in reqs]
+        rp["values"] = [r["value"].hex() for r in reqs]
+        by_name = {r["name"]: r for r in reqs}
+        futures = {}
+
+        def on_request(peer, attribute, metadata):
+            fut = asyncio.get_running_loop().create_future()
+            futures[attribute] = fut
+            return fut
+
+        completed = []
+        attester.set_attestation_request_callback(on_request)
+        attestee.set_attestation_request_complete_callback(
+            lambda for_peer, name, h, fmt, from_peer=None: completed.append((name, h, fmt)))
+        apeer = Peer(nodes[0].my_peer.public_key, addr[0])
+        for r in reqs:
+            attestee.request_attestation(apeer, r["name"], r["sk"], {"id_format": r["fmt"]})
+            _, dist, _ = attester._ez_unpack_auth(RequestAttestationPayload, inflight[-1][2])  # noqa: SLF001
+            r["gt"] = dist.global_time
+        await pump()                            # all requests reach the attester; none is answered yet
+        if set(futures) != set(by_name):
+            ctx.oracle_fail("session:requests-lost", f"{len(futures)} of {len(reqs)} requests reached the attester", rp)
+            return
+        names = [r["name"] for r in reqs]
+        answer = {"reversed": names[::-1], "in-order": names, "random": rng.sample(names, len(names))}[order_kind]
+        if chunk_net == "fifo":
+            for nm in answer:                   # out-of-order answers, each transferred completely before the next
+                futures[nm].set_result(by_name[nm]["value"])
+                await settle()
+                await pump()
+        else:
+            for nm in answer:
+                futures[nm].set_result(by_name[nm]["value"])
+                await settle()
+            await pump(pick="random", dup=0.3 if chunk_net.endswith("dup") else 0.0)
+        ctx.count("session:requests", len(reqs))
+        # ---- oracle 1: every attestation arrived and is stored with the key of the request it answers ----------------
+        got_names = sorted(c[0] for c in completed)
+        if got_names != sorted(names):
+            ctx.oracle_fail("on_attestation_chunk:attestation-lost-or-misrouted",
+                            f"requests {sorted(names)} were answered ({order_kind}, chunks {chunk_net}); completed "
+                            f"transfers: {got_names}", rp)
+        for name, h, fmt in completed:
+            r = by_name.get(name)
+            stored = attestee.attestation_keys.get(h)
+            if r is None or stored is None:
+                continue
+            r["hash"] = h
+            key_ok = stored[0].serialize() == r["sk"].serialize() and stored[1] == r["fmt"] == fmt
+            blobs = attestee.database.get_attestation_by_hash(h)
+            att = attestee.get_id_algorithm(fmt).get_attestation_class().unserialize(blobs[0], fmt) if blobs else None
+            prof_ok = None
+            if att is not None and key_ok:
+                sk = r["sk"]
+                p = sk.p
+                t = e_powf(fval(sk.g), sk.t1, p)
+                tpow = [e_powf(t, m, p) for m in range(3)]
+                sums = []
+                for bp in att.bitpairs:
+                    d = e_powf(e_mul(e_mul(fval(bp.a), fval(bp.b), p), fval(bp.complement), p), sk.t1, p)
+                    sums.append(next((m for m in range(3) if d == tpow[m]), 3))
+                hfun = HASHES[SESSION_HASH[fmt]][0]
+                prof_ok = [sums.count(k) for k in range(4)] == profile_of_bits(bits_of_digest(hfun(r["value"])))
+            if not key_ok or prof_ok is False:
+                ctx.oracle_fail("on_attestation_chunk:attestation-bound-to-wrong-key",
+                                f"attribute {name} ({fmt}) was requested with its own fresh key; the received attestation "
+                                f"is stored with {'another key/format' if not key_ok else 'a key that does not decrypt it'} "
+                                f"(answers {order_kind}, chunks {chunk_net})", dict(rp, attribute=name))
+        # ---- model: the same chunk arrivals through runChunks ----------------------------------------------------
+        att_id, nchunks = {}, {}
+        for _, h, seq in chunk_events:
+            att_id.setdefault(h, len(att_id) + 1)
+            nchunks[h] = max(nchunks.get(h, 0), seq + 1)
+        flat_req = [x for i, r in enumerate(reqs) for x in (r["gt"], i + 1)]
+        flat_ev = [x for gt, h, seq in chunk_events for x in (gt, att_id[h], seq, nchunks[h])]
+        key_idx = {r["sk"].serialize(): i + 1 for i, r in enumerate(reqs)}
+        impl_stored = []
+        for name, h, fmt in completed:
+            st = attestee.attestation_keys.get(h)
+            impl_stored += [att_id.get(h, 0), key_idx.get(st[0].serialize(), 0) if st else 0]
+        left = sum(1 for c in attestee.request_cache._identifiers.values()  # noqa: SLF001
+                   if c.prefix == "receive-request-attestation")
+        batch.add(f"reqrun {nat_list(flat_req)} {nat_list(flat_ev)}", f"{nat_list(impl_stored)} {left}",
+                  tag=f"issuance bookkeeping ({order_kind}, {chunk_net})")
+        ctx.count("session:chunk-deliveries", len(chunk_events))
+        # ---- oracle 2: the same two nodes verify every attribute, format after format --------------------------------
+        vorder = rng.sample([r for r in reqs if "hash" in r], len([r for r in reqs if "hash" in r]))
+        vorder = vorder + vorder[:1]            # and the first one again after the others
+        for r in vorder:
+            fmt = r["fmt"]
+            hfun, bitspace = HASHES[SESSION_HASH[fmt]]
+            others = neighbour_values(rng, r["value"])[:2]
+            results = []
+            attester.verify_attestation_values(addr[1], r["hash"], [r["value"], *others],
+                                               lambda h, vals: results.append(list(vals)), fmt)
+            await pump(dup=0.2)
+            ctx.count(f"session:verified:{fmt}")
+            npairs = bitspace // 2
+            want = 1 - Fraction(1, 2 ** npairs)
+            prof = profile_of_bits(bits_of_digest(hfun(r["value"])))
+            if not results or any(not exact_float(v[0], want) for v in results):
+                ctx.oracle_fail("verify_attestation_values:true-value-score",
+                                f"session: attribute {r['name']} of format {fmt} ({npairs} bit pairs) verified after "
+                                f"{[q['fmt'] for q in vorder[:vorder.index(r)]]} on the same nodes scores "
+                                f"{[v[0] for v in results]}, expected {float(want)!r}", dict(rp, attribute=r["name"]))
+            for v in results:
+                for ov, sc in zip(others, v[1:]):
+                    if profile_of_bits(bits_of_digest(hfun(ov))) != prof and sc != 0.0:
+                        ctx.oracle_fail("verify_attestation_values:other-value-score",
+                                        f"session: value {ov!r} with another profile scores {sc!r} ({fmt})", rp)
+            attester.request_cache.clear()
+            attestee.request_cache.clear()
+        ctx.case(("session", tuple(fmts), order_kind, chunk_net, seed), True)
+    finally:
+        attester.request_cache.clear()
+        attestee.request_cache.clear()
+        for node in nodes:
+            await node.stop()
+        internet.clear()
+
+
 FORMATS_BY_ID = {"id_metadata": "sha256_4", "id_metadata_big": "sha256", "id_metadata_huge": "sha512"}
 
 
@@ -1771,6 +2000,8 @@ def protocol_cases(ctx: Ctx, scale: float):
         community_round(ctx, batch, NET_MODES[i % len(NET_MODES)])
     for i in range(max(2, int(2 * scale))):
         community_range_round(ctx, duplicate=bool(i % 2))
+    for _ in range(max(2, int(2 * scale))):
+        issuance_session(ctx, batch)
     batch.flush(ctx)
 
 
@@ -1886,6 +2117,11 @@ def replay(ctx: Ctx, rec: dict):
         community_round(ctx, batch, r["mode"], r.get("id_format", "id_metadata"), seed=r.get("seed"),
                         sk_hex=r.get("sk"), value=bytes.fromhex(r["value"]))
         print(f"replay: the recorded verification (mode {r['mode']}, seed {r.get('seed')}, recorded key and value): "
+              f"{'property FAILS' if ctx.failures else 'property holds'}")
+        return
+    if kind == "session":
+        issuance_session(ctx, batch, seed=r.get("seed"))
+        print(f"replay: the recorded session (seed {r.get('seed')}; keys are fresh): "
               f"{'property FAILS' if ctx.failures else 'property holds'}")
         return
     if kind == "bad-answer":
